@@ -155,6 +155,15 @@ func (r *Rig) GRPC() hydrapb.HydraideServiceClient {
 	return hydrapb.NewHydraideServiceClient(r.conn)
 }
 
+// Conn returns the client connection of GRPC() (started on first use), for drivers that invoke
+// methods generically (conn.Invoke / conn.NewStream with messages built by reflection).
+func (r *Rig) Conn() *grpc.ClientConn {
+	r.GRPC()
+	r.mu.Lock()
+	defer r.mu.Unlock()
+	return r.conn
+}
+
 // Wire returns m after a protobuf marshal/unmarshal round trip: the form in which a handler would
 // receive it from the network (empty repeated fields become nil, etc.).
 func Wire[T proto.Message](m T) T {
